@@ -119,6 +119,13 @@ func main() {
 			os.Exit(3)
 		}
 		fmt.Println("generic fixed scenarios ok")
+	case "typeshapes":
+		// every kind of Go type maps to one id through the generic and the reflect.Type entry points
+		if err := genericShapes(); err != nil {
+			fmt.Println("TYPE-SHAPE FAILURE:", err)
+			os.Exit(3)
+		}
+		fmt.Println("type shapes ok")
 	case "puregen":
 		seed, _ := strconv.ParseUint(os.Args[2], 10, 64)
 		n, _ := strconv.Atoi(os.Args[3])
